@@ -43,6 +43,8 @@ def c02(run):
                              "similarity and general-position images; non-trivial = both operands non-empty and not "
                              "disjoint; distinct by hash of the case"}
     run.model_check("MC_DE9IM", timeout=900)
+    # the laws of the reference model itself (transpose, predicate consistency, ...) over every pair of a small universe
+    run.model_check("MC_Geometry", cfg=tier_n(run, "MC_Geometry.cfg", "MC_Geometry_thorough.cfg"), timeout=3000)
     family_enumerated(run, "relate", "Gen_Matches", "Trace_Relate", gen_cfg=tier_n(run, "Gen_Matches.cfg", "Gen_Matches_full.cfg"))
     pairs_stage(run, "relate", "Trace_Relate", tier_n(run, "Gen_Pairs.cfg", "Gen_Pairs_full.cfg"), lambda c, i: [c], "pairs")
     if run.tier == "thorough":
@@ -100,6 +102,7 @@ def c09(run):
     run.extra_cov = {"rule": "random valid lattice geometry pairs of all 7 types (N in 3..8) incl. collections, empty members, "
                              "30-60 segment lines (deep R-tree), similarity and general-position images; triples for the triangle "
                              "law; non-trivial = both operands non-empty; distinct by case hash"}
+    run.model_check("MC_Geometry", cfg="MC_Geometry.cfg", timeout=900)
     pairs_stage(run, "dist", "Trace_Dist", tier_n(run, "Gen_Pairs.cfg", "Gen_Pairs_full.cfg"), lambda c, i: [dict(c, kind="pair")], "pairs")
     if run.tier == "thorough":
         pairs_stage(run, "dist", "Trace_Dist", "Gen_Pairs_holes.cfg", lambda c, i: [dict(c, kind="pair")], "pairs-holes")
@@ -197,6 +200,7 @@ def c14(run):
     run.extra_cov = {"rule": "random valid lattice geometries of all types, polygons with 0..2 holes, multi-geometries with empty "
                              "members, mixed collections, every ring start/direction/hole order (variants), ForceCW/CCW/Reverse, all "
                              "coordinate types, exact-similarity images, Area with a transform; non-trivial = non-empty"}
+    run.model_check("MC_Geometry", cfg="MC_Geometry.cfg", timeout=900)
     shapes_stage(run, "measure", "Trace_Measure", lambda c, i: [dict(c, force=i % 4, ct=(i // 4) % 4, ts=1 + i % 4, tdx=i % 9 - 4, tdy=(i // 3) % 9 - 4)])
     family_random(run, "measure", "Trace_Measure", tier_n(run, 10000, 400000))
 
@@ -224,6 +228,7 @@ def c15(run):
     run.extra_cov = {"rule": "random valid lattice geometries of all types; concave/U/comb/sliver polygons, polygons with holes "
                              "touching the shell, closed and self-touching lines, multilinestrings sharing end points 2..5 ways, "
                              "collections with empty members; non-trivial = non-empty"}
+    run.model_check("MC_Geometry", cfg="MC_Geometry.cfg", timeout=900)
     shapes_stage(run, "boundary", "Trace_Boundary", lambda c, i: [c])
     family_random(run, "boundary", "Trace_Boundary", tier_n(run, 10000, 400000))
 
